@@ -866,7 +866,7 @@ func (c *Ctx) isGreatestKeyCall(u *FuncUnit, call *ast.CallExpr, depth int) bool
 	if depth > 2 {
 		return false
 	}
-	if strings.HasSuffix(m.calleeName(call), ".restoreKey") && len(call.Args) == 1 {
+	if m.isRestoreCall(call) && len(call.Args) == 1 {
 		arg := ast.Unparen(m.throughLocals(u, call.Args[0]))
 		hc, _ := arg.(*ast.CallExpr)
 		if hc == nil {
